@@ -651,7 +651,16 @@ func c05GenCase(e *Env, suite string, kase *c05Case, day int64) {
 	bonded := big.NewInt(0)
 	extra := big.NewInt(0)
 	target := bigOf(kase.Params.Exp.Target)
-	switch e.Pick(5) {
+	switch e.Pick(6) {
+	case 5: // supply of the order of ONE epoch's provision and a ratio well below the target: every mint moves the bonded
+		// ratio visibly, so it matters at which point of the hook the ratio is read (before or after the mint)
+		per := new(big.Int).Quo(bigOf(kase.Params.Exp.A), big.NewInt(kase.Epp)) // ~ tokens minted per epoch (a is scaled by 10^18, as the provision is)
+		if per.Sign() <= 0 {
+			per = big.NewInt(1000)
+		}
+		bonded = new(big.Int).Mul(per, big.NewInt(int64(1+e.Pick(3))))
+		extra = new(big.Int).Mul(per, big.NewInt(int64(2+e.Pick(6))))
+		e.Stats.Count("bonded-ratio:supply-comparable-to-one-provision")
 	case 0: // nothing bonded
 		extra = e.Mag(100)
 		e.Stats.Count("bonded-ratio:zero")
